@@ -566,31 +566,29 @@ pub fn isolated_verdict(trace: &BuilderTrace) -> Option<Violation> {
     ))
 }
 
-thread_local! {
-    /// operations this worker thread has executed in earlier runs: the first ones and the most recent
-    static PAST_HEAD: std::cell::RefCell<Vec<Op>> = std::cell::RefCell::new(Vec::new());
-    static PAST_RECENT: std::cell::RefCell<std::collections::VecDeque<Op>> = std::cell::RefCell::new(std::collections::VecDeque::new());
-}
+/// operations this PROCESS has executed in earlier runs (all worker threads, in arrival order):
+/// the first ones and the most recent ones. Only used to reconstruct a replayable witness after
+/// process-wide state has been detected; never influences a verdict on a clean tree.
+static PAST_HEAD: std::sync::Mutex<Vec<Op>> = std::sync::Mutex::new(Vec::new());
+static PAST_RECENT: std::sync::Mutex<std::collections::VecDeque<Op>> = std::sync::Mutex::new(std::collections::VecDeque::new());
 
 pub fn remember_ops(ops: &[Op]) {
-    PAST_HEAD.with(|h| {
-        let mut h = h.borrow_mut();
+    if let Ok(mut h) = PAST_HEAD.lock() {
         for op in ops {
-            if h.len() >= 400 {
+            if h.len() >= 600 {
                 break;
             }
             h.push(op.clone());
         }
-    });
-    PAST_RECENT.with(|q| {
-        let mut q = q.borrow_mut();
-        for op in ops.iter().rev().take(400).rev() {
+    }
+    if let Ok(mut q) = PAST_RECENT.lock() {
+        for op in ops.iter().rev().take(600).rev() {
             q.push_back(op.clone());
-            if q.len() > 400 {
+            if q.len() > 600 {
                 q.pop_front();
             }
         }
-    });
+    }
 }
 
 /// Is THIS (long-running) process polluted relative to a pristine one? A fresh builder here and a
@@ -613,8 +611,10 @@ pub fn pollution_check(trace: &BuilderTrace) -> Option<(Violation, BuilderTrace)
     if same {
         return None;
     }
-    let mut ops: Vec<Op> = PAST_HEAD.with(|h| h.borrow().clone());
-    PAST_RECENT.with(|q| ops.extend(q.borrow().iter().cloned()));
+    let mut ops: Vec<Op> = PAST_HEAD.lock().map(|h| h.clone()).unwrap_or_default();
+    if let Ok(q) = PAST_RECENT.lock() {
+        ops.extend(q.iter().cloned());
+    }
     ops.extend(trace.ops.iter().cloned());
     let cand = BuilderTrace { property: "C12".into(), seed: trace.seed, run: trace.run, origin: format!("reconstructed_past+{}", trace.origin), ops, pristine_reference: true };
     if let Some(v) = isolated_verdict(&cand) {
